@@ -86,6 +86,9 @@ type c34Cfg struct {
 
 	Muts      []mutation
 	LatSpread int
+	ReplyLat  int // CDN replies travel up to this many ms after the CDN produced them (0: none)
+	Hold      bool  // the first CDN data reply covering HoldPos travels until the master has taken over
+	HoldPos   int64
 	BgSeed    uint64
 }
 
@@ -96,7 +99,7 @@ func (c c34Cfg) String() string {
 	}
 	return fmt.Sprintf("size=%d %s part=%d thr=%d %s win=%v nominal=%v batch=%d eofAgain=%v rh=%d direct=%d reup=%v tokInv=%d newKey=%v newDC=%v fb=%d fpC=%d fpAt=%d muts=%v lat=%d",
 		c.Size, c.Mode, c.Part, c.Threads, out, c.WinSizes, c.Nominal, c.Batch, c.EOFAgain, c.RedirectHashes, c.Direct,
-		c.Reupload, c.TokenInvalidAt, c.NewKey, c.NewDC, c.Fallback, c.FpCreate, c.FpAt, c.Muts, c.LatSpread)
+		c.Reupload, c.TokenInvalidAt, c.NewKey, c.NewDC, c.Fallback, c.FpCreate, c.FpAt, c.Muts, c.LatSpread) + fmt.Sprintf(" replyLat=%d hold=%v@%d", c.ReplyLat, c.Hold, c.HoldPos)
 }
 
 type tokState struct {
@@ -135,6 +138,7 @@ type c34Server struct {
 	events       map[string]int
 	violations   []string
 	conns        int
+	held         bool
 }
 
 func buildWindows(file []byte, sizes []int, nominal bool) []hwin {
@@ -517,7 +521,46 @@ func (s c34CDNClient) CDN(ctx context.Context, dc int, max int64) (downloader.CD
 	return c, c, nil
 }
 
+// UploadGetCDNFile: the CDN produces its answer (cdnFile) and the answer then
+// travels for a drawn time, during which other workers' calls are served: a
+// reply produced under a token that was valid when the request arrived can
+// reach the client after the token was revoked and the master took over.
 func (c *cdnConn) UploadGetCDNFile(ctx context.Context, r *tg.UploadGetCDNFileRequest) (tg.UploadCDNFileClass, error) {
+	resp, err := c.cdnFile(ctx, r)
+	if hp := c.s.c.HoldPos; c.s.c.Hold && err == nil && r.Offset <= hp && hp < r.Offset+int64(r.Limit) {
+		c.s.mu.Lock()
+		first := !c.s.held
+		c.s.held = true
+		c.s.mu.Unlock()
+		if _, isData := resp.(*tg.UploadCDNFile); first && isData {
+			// in flight while the other workers go on: until the master has answered
+			// two calls itself (the refresh probe and one more, i.e. the schema has
+			// switched over), at most 5 virtual seconds
+			for i := 0; i < 5000; i++ {
+				c.s.mu.Lock()
+				over := c.s.events["master-fallback"] >= 2
+				c.s.mu.Unlock()
+				if over {
+					c.s.mu.Lock()
+					c.s.events["reply-overtaken-by-fallback"]++
+					c.s.mu.Unlock()
+					break
+				}
+				time.Sleep(time.Millisecond)
+			}
+		}
+	}
+	if c.s.c.ReplyLat > 0 {
+		c.s.mu.Lock()
+		c.s.seq++
+		n := c.s.seq
+		c.s.mu.Unlock()
+		time.Sleep(time.Duration(mix64(c.s.c.BgSeed^0x5eed+uint64(n))%uint64(c.s.c.ReplyLat))*time.Millisecond + time.Duration(n%4096)*time.Nanosecond)
+	}
+	return resp, err
+}
+
+func (c *cdnConn) cdnFile(ctx context.Context, r *tg.UploadGetCDNFileRequest) (tg.UploadCDNFileClass, error) {
 	s := c.s
 	s.pause()
 	s.mu.Lock()
@@ -725,7 +768,7 @@ func genC34Cfg(t *rapid.T) c34Cfg {
 				c.TokenInvalidAt = rapid.IntRange(0, 6).Draw(t, "tokInvAt")
 				c.NewKey = rapid.Bool().Draw(t, "newKey")
 				c.NewDC = rapid.Bool().Draw(t, "newDC")
-				c.Fallback = rapid.SampledFrom([]int{0, 0, 1, 3}).Draw(t, "fallback")
+				c.Fallback = rapid.SampledFrom([]int{0, 0, 1, 3, 1 << 20}).Draw(t, "fallback") // 1<<20: the master stops redirecting for good
 			}
 			c.FpCreate = rapid.SampledFrom([]int{0, 0, 1, 2}).Draw(t, "fpCreate")
 			if rapid.IntRange(0, 3).Draw(t, "fpReq") == 3 {
@@ -753,7 +796,37 @@ func genC34Cfg(t *rapid.T) c34Cfg {
 		c.Muts = append(c.Muts, m)
 	}
 	c.LatSpread = rapid.SampledFrom([]int{0, 0, 20, 500}).Draw(t, "latSpread")
+	if c.Mode != modeMasterVerify {
+		c.ReplyLat = rapid.SampledFrom([]int{0, 0, 30, 800}).Draw(t, "replyLat")
+	}
 	c.BgSeed = rapid.Uint64().Draw(t, "bgSeed")
+	if c.Mode != modeMasterVerify && rapid.IntRange(0, 5).Draw(t, "overtake") == 0 {
+		// scenario class built directly (it needs five things at once): several
+		// workers, the token revoked after a few CDN calls, the master serving the
+		// file itself from then on, and a tampered CDN reply that was produced
+		// before the revocation but arrives after the hand-over
+		c.Threads = rapid.IntRange(2, 4).Draw(t, "otThreads")
+		c.TokenInvalidAt = rapid.IntRange(1, 3).Draw(t, "otInvAt")
+		c.Fallback = rapid.SampledFrom([]int{2, 3, 1 << 20}).Draw(t, "otFallback")
+		if c.Size < 4*int64(c.Part) {
+			c.Size = min(int64(c.Part)*int64(rapid.IntRange(4, 8).Draw(t, "otParts"))+int64(rapid.IntRange(0, c.Part-1).Draw(t, "otTail")), 6*mib)
+		}
+		if len(c.Muts) == 0 {
+			c.Muts = []mutation{{Kind: rapid.SampledFrom([]string{"flip", "other-pt", "other-ct", "swap", "ctr"}).Draw(t, "otKind"), A: rapid.IntRange(0, 1<<20).Draw(t, "otA"), B: rapid.IntRange(0, 1<<16).Draw(t, "otB")}}
+		}
+		c.Muts[0].Nth = 0
+		c.Muts[0].Pos = int64(rapid.IntRange(0, int(min(2*int64(c.Part), c.Size)-1)).Draw(t, "otPos"))
+		c.Hold, c.HoldPos = true, c.Muts[0].Pos
+	} else if c.TokenInvalidAt >= 0 && c.Fallback > 0 && rapid.Bool().Draw(t, "hold") {
+		// a reply produced before the token was revoked arrives after the master
+		// took over; preferably the reply the adversary tampered with
+		c.Hold = true
+		if len(c.Muts) > 0 && rapid.Bool().Draw(t, "holdMutated") {
+			c.HoldPos = c.Muts[0].Pos
+		} else {
+			c.HoldPos = int64(rapid.IntRange(0, int(c.Size-1)).Draw(t, "holdPos"))
+		}
+	}
 	return c
 }
 
@@ -797,7 +870,7 @@ func c34Classes(c c34Cfg, o c34Outcome) []string {
 	for k := range o.MutKinds {
 		cl = append(cl, "mut="+k)
 	}
-	for _, k := range []string{"master-direct", "master-fallback", "token-invalidated", "reupload-needed", "fingerprint-create", "fingerprint-request"} {
+	for _, k := range []string{"master-direct", "master-fallback", "token-invalidated", "reupload-needed", "fingerprint-create", "fingerprint-request", "reply-overtaken-by-fallback"} {
 		if o.Events[k] > 0 {
 			cl = append(cl, "event="+k)
 		}
